@@ -19,3 +19,6 @@ type helperUse struct {
 }
 
 func helperIndex() map[string][]helperUse { return nil }
+
+func installJitter(seed uint64, perMille uint64) {}
+func jitterStats() (uint64, uint64)           { return 0, 0 }
